@@ -27,7 +27,7 @@ Qed.
 (** the loop detector fired iff the flag changed *)
 Definition not_fired {A} (o : op A) (b : A) : Prop :=
   match o in op T return T -> Prop with
-  | OLoopDetect => fun b => b = false
+  | OLoopDetect _ => fun b => fst b = false
   | _ => fun _ => True
   end b.
 
@@ -62,7 +62,7 @@ Proof.
   - (* OCheckpoint *) destruct (cp_is_some s); [discriminate|exact H].
   - (* OAssertDbg *) destruct (negb (f s)); [discriminate|exact H].
   - (* OLoopDetect *)
-    subst b. destruct (_ && _) eqn:E; [discriminate|]. exact H.
+    destruct (_ && _) eqn:E; [inversion H; subst; cbn in NF; discriminate|]. exact H.
   - (* OFinalEOF *)
     destruct (last_line_or_add true _) as [r s1|] eqn:E; [|discriminate].
     rewrite (last_line_or_add_rel _ _ _ E). apply add_token_rel. exact H.
